@@ -229,7 +229,10 @@ def run_shard(ctx):
         except Exception:
             agg.count("refused_parse")
             continue
+        big = len(data) > 30000         # tracing copies the memo at every opcode: quadratic on big pickles
         qs_here = QUERIES if not order else ["check_safety", "unparse", "to_dict", "properties"]
+        if big:
+            qs_here = [q for q in qs_here if not q.startswith("trace")]
         base = {q: answer(f, analysis, tracing, f.Pickled.load(data), q) for q in qs_here}
         ch = h(data)
         nontrivial = not str(base["unparse"]).startswith("EXC:") and len(p0) >= 3
@@ -257,6 +260,8 @@ def run_shard(ctx):
         # (not seekable ones: a *seekable* raw stream with short reads is outside the file protocol pickletools and
         # the stock unpickler themselves rely on - read(n) returns n bytes unless the input ends)
         for vname, chunk, seekable in (("raw-dribble-1", 1, False), ("raw-dribble-7", 7, False), ("raw-dribble-4096", 4096, False)):
+            if big and chunk < 4096:
+                continue
             try:
                 variants.append((vname, f.Pickled.load(Dribble(data, chunk, seekable))))
                 sp = f.StackedPickle.load(Dribble(b"N." + data + b"K\x01.", chunk, seekable))
@@ -282,7 +287,9 @@ def run_shard(ctx):
                     break
         rng = asm.rng_for(ctx.seed, "c13seq" + ch)
         seqs = []
-        if nontrivial:
+        if big:
+            seqs.append([q for q in ("check_safety", "unparse", "properties", "check_safety", "to_dict", "unparse") if q in base])
+        elif nontrivial:
             # bounded-exhaustive ordered selections on a deterministic subset of the corpus,
             # random sequences with repetition on everything
             if int(ch[:2], 16) % (12 if ctx.tier == "quick" else 2) == 0:
